@@ -21,6 +21,8 @@
   (WithdrawableUnlockedBalance subtracts what was already withdrawn from the unlocked total).
   `State.fixedNeg = true` is the code with repo_patches/sub_wager_nonneg_deduct.diff (the subaccount wager ticket
   payload rejects a negative main-account or subaccount deduction).
+  `State.fixedRet = true` is the code with repo_patches/sub_wager_return_untaken.diff (after the bet module charged
+  the owner, the part of the subaccount deduction that was not taken is sent back to the subaccount).
 
   Ghost fields (`Sub.released … Sub.staked`, `State.clean`) never influence `step`; they exist to state C11.
 -/
@@ -126,6 +128,7 @@ deriving Repr, Inhabited
 structure State where
   fixed : Bool := false
   fixedNeg : Bool := false
+  fixedRet : Bool := false
   now : Nat := 0
   nextId : Nat := 1
   wagerEnabled : Bool := true
@@ -271,6 +274,33 @@ def wagerBet (s0 s1 : State) (owner a : Nat) (x : WagerExt) : State × Res :=
     | none => (s0, .panic)
     | some sub => ({ s1 with bank := bank', subs := upd s1.subs a (some { sub with staked := sub.staked + x.charged }) }, .ok)
 
+/-- third part of MsgWager (only in the `fixedRet` variant): what the bet module did not take of the subaccount
+    deduction goes back to the subaccount (`returnToSubaccount`). `s0` is the state before the message (its owner
+    balance is the `mainAccBalance` read before the deduction), `s2` the state after the bet module charged. -/
+def wagerReturn (s0 s2 : State) (owner a : Nat) (main sub : Int) : State × Res :=
+  if !s2.fixedRet then (s2, .ok) else
+  let amt := min (s2.bank owner - (s0.bank owner - main)) sub
+  if amt ≤ 0 then (s2, .ok) else
+  match s2.subs a with
+  | none => (s0, .panic)
+  | some sb =>
+    if amt > sb.sum.withdrawn then (s0, .err .amount) else
+    match send s2.bank owner a amt with
+    | none => (s0, .err .funds)
+    | some bank' =>
+      ({ s2 with bank := bank',
+                 subs := upd s2.subs a (some { sb with sum := { sb.sum with withdrawn := sb.sum.withdrawn - amt },
+                                                        wagered := sb.wagered - amt, toOwner := sb.toOwner - amt }) }, .ok)
+
+/-- MsgWager after all checks: deduct from the subaccount, let the bet module charge, (patched) return the rest -/
+def wagerTail (s : State) (owner a : Nat) (main sub : Int) (x : WagerExt) : State × Res :=
+  match withdrawLockedAt s a owner sub with
+  | (s1, .ok) =>
+    match wagerBet s s1 owner a x with
+    | (s2, .ok) => wagerReturn s s2 owner a main sub
+    | (_, r) => (s, r)
+  | (_, r) => (s, r)
+
 /-- MsgWager of x/subaccount -/
 def wager (s : State) (owner : Nat) (main sub : Int) (x : WagerExt) : State × Res :=
   if !s.wagerEnabled then (s, .err .disabled) else
@@ -284,9 +314,7 @@ def wager (s : State) (owner : Nat) (main sub : Int) (x : WagerExt) : State × R
     if main + sub ≠ x.betAmount then (s, .err .payload) else
     if x.pre = 5 then (s, .err .payload) else
     if s.bank owner < main then (s, .err .mainbal) else
-    match withdrawLockedAt s a owner sub with
-    | (s1, .ok) => wagerBet s s1 owner a x
-    | (_, r) => (s, r)
+    wagerTail s owner a main sub x
 
 structure HouseDepExt where
   /-- `ParseDepositTicketAndValidate` -/
@@ -477,5 +505,8 @@ def init (fixed : Bool) (bank : Nat → Int) : State := { fixed := fixed, bank :
 
 /-- genesis with both patches selectable -/
 def init2 (fixed fixedNeg : Bool) (bank : Nat → Int) : State := { fixed := fixed, fixedNeg := fixedNeg, bank := bank }
+
+/-- genesis with all three patches -/
+def initFixed (bank : Nat → Int) : State := { fixed := true, fixedNeg := true, fixedRet := true, bank := bank }
 
 end Sge.Subaccount
